@@ -75,6 +75,18 @@ def handle (st : St) (n : Nat) (line : String) : Result := Id.run do
       let f := fail st n "C10" s!"production binary ({phase}): {msg.take 200}"
       let f2 := fail f.st n "C06" s!"production binary ({phase}): {msg.take 200}"
       return { st := f2.st, out := f.out ++ f2.out }
+  | "BINM" :: rest =>
+    let g := field rest
+    let st := st.bump "binary.metrics-page"
+    if (g "page_attempts").getD "?" == "-1" then
+      return fail st n "C20" "production binary: the /metrics page configured with --metrics_listen cannot be read"
+    else if (g "attempts").getD "a" != (g "page_attempts").getD "b" || (g "successes").getD "a" != (g "page_successes").getD "b" then
+      return fail st n "C20" s!"production binary: its /metrics page shows {(g "page_attempts").getD "?"} update requests and {(g "page_successes").getD "?"} successes for a log for which {(g "attempts").getD "?"} requests reached Update and {(g "successes").getD "?"} were answered 200"
+    else return { st := { st with nOK := st.nOK + 1 }, out := [s!"OK {n}"] }
+  | "BINK" :: rest =>
+    -- informational: whether the kill found the binary inside a commit (rollback journal on disk)
+    let g := field rest
+    return { st := { (st.bump s!"binary.kill-in-commit.journal={(g "journal").getD "?"}") with nOK := st.nOK + 1 }, out := [s!"OK {n}"] }
   | "BINP" :: rest =>
     let g := field rest
     let st := st.bump s!"binary.polled.{(g "phase").getD "?"}"
